@@ -1,4 +1,5 @@
 import CgtModel.Report
+import CgtModel.Lemmas.WellFormed
 import CgtModel.Lemmas.Conserve
 /-! # C02 — shares are conserved
 
@@ -124,6 +125,19 @@ theorem C02_closing_holding (w : Int) (l : List Tx) (rs : List TickerResult) (h 
       poolQ' r.pool = rescaledNet (daysOf r.ticker (preprocess l)) ∧ 0 ≤ poolQ' r.pool :=
   fun r hr hok => (ticker_conserves r.ticker w _ r.pool r.legs hok (run_result w l rs h r hr)).2
 
+/-- **C02 (a)+(b′)+(c) from the raw ledger**: for every ledger whose lines pass the validator's
+    sign conditions (`WellFormed`: positive quantities and ratios, non-negative prices and fees) and
+    which the matcher accepts, every security's legs form one block per day adding up to the quantity
+    sold that day, and the closing holding is the split-rescaled net position, never negative.
+    No hypothesis on intermediate data remains. -/
+theorem C02_ledger (w : Int) (l : List Tx) (hwf : WellFormed l) (rs : List TickerResult)
+    (h : run w l = .ok rs) :
+    ∀ r ∈ rs, DayLegs (daysOf r.ticker (preprocess l)) r.legs ∧
+      poolQ' r.pool = rescaledNet (daysOf r.ticker (preprocess l)) ∧ 0 ≤ poolQ' r.pool := by
+  intro r hr
+  have hok := (wellFormed_days l hwf r.ticker).1
+  exact ⟨C02_legs_sum w l rs h r hr hok, C02_closing_holding w l rs h r hr hok⟩
+
 /-- **C02 (b), partial**: invariant of the main pass — whenever a day is processed, Same-Day legs plus
     the claims earlier disposals hold on its purchase fit into the purchase; claims stay within what
     the day's own disposals leave over; the pool never goes negative. -/
@@ -161,4 +175,12 @@ example : daysOk exDays := by
   refine ⟨⟨?_, ?_, ?_⟩, ⟨?_, ?_, ?_⟩, ⟨?_, ?_, ?_⟩, trivial⟩ <;> first | decide +kernel | (intro s hs; simp [exDays] at hs; try (subst hs); decide +kernel)
 example : rescaledNet exDays = 220 := by decide +kernel
 
+end Cgt.C02
+
+namespace Cgt.C02
+-- non-vacuity of `WellFormed`: a ledger with a same-day pair, a 30-day repurchase, a split and fees
+def exLedger : List Tx :=
+  [ ⟨⟨2024, 1, 1⟩, "A", .buy 100 2 5⟩, ⟨⟨2024, 2, 1⟩, "A", .sell 40 3 1⟩, ⟨⟨2024, 2, 1⟩, "A", .buy 10 (5/2) 0⟩,
+    ⟨⟨2024, 2, 10⟩, "A", .split 2⟩, ⟨⟨2024, 2, 20⟩, "A", .buy 30 1 2⟩, ⟨⟨2024, 3, 1⟩, "B", .buy 1 1 0⟩ ]
+example : WellFormed exLedger := by decide +kernel
 end Cgt.C02
